@@ -14,4 +14,11 @@ PROPS = {
         assumptions=['one handler per model instance (handlers are independent in the code)',
                      'Go mutex/channel semantics as modelled: critical sections atomic, 1-slot channel'],
     ),
+    'C20': dict(
+        coq=['Props/C20', 'Run/C20Run'],
+        go=[dict(run='^TestVF_C20$')],
+        trusted_base=['hand-written model Model/SeqnoVal.v of validation_builtin.go BasicSeqnoValidator'],
+        assumptions=['sync.RWMutex semantics: the exclusive section is atomic; shared-lock reads see a stable value',
+                     'PeerMetadataStore.Get/Put behave as a map (the harness store does)'],
+    ),
 }
